@@ -897,7 +897,8 @@ func expectedAnswer(c *client) string {
 }
 
 type verdict struct {
-	fail string // first hard failure ("" = none)
+	fail  string // first hard failure ("" = none)
+	known string // first occurrence of the recorded KNOWN finding (lowest priority, never masks fail)
 	soft []*group
 	tags []string
 }
@@ -910,7 +911,17 @@ func (e *sysEnv) judge(gs []*group) verdict {
 			v.fail = fmt.Sprintf("FAIL sig=%s %s", sig, detail)
 		}
 	}
-	total, nOK, nSF := 0, 0, 0
+	// a tiny ingress pool in front of resolutions that last the whole budget: every UDP
+	// query of the wave shares the two workers and the ready queue of one
+	queueExpiry := false
+	if e.kind == "i" {
+		for _, g := range gs {
+			if slowZone[g.zone] {
+				queueExpiry = true
+			}
+		}
+	}
+	total, nOK, nSF, nKnown := 0, 0, 0, 0
 	for _, g := range gs {
 		softHit := false
 		for _, c := range g.judged {
@@ -923,10 +934,13 @@ func (e *sysEnv) judge(gs []*group) verdict {
 			}
 			switch {
 			case len(c.replies) == 0:
-				if e.kind == "i" && kind == "udp" && slowZone[g.zone] {
-					// candidate finding (notes/C11.md): a job parked in the ready queue
-					// for its whole budget is dropped without a SERVFAIL
-					fail("sys/no-reply/expired-in-ingress-queue", fmt.Sprintf("%s name=%s id=%d", where, c.name, c.id))
+				if queueExpiry && kind == "udp" {
+					// KNOWN finding (notes/C11.md, known_findings.jsonl): a job parked in
+					// the ready queue for its whole budget is dropped without a SERVFAIL
+					if v.known == "" {
+						v.known = fmt.Sprintf("FAIL sig=sys/no-reply/expired-in-ingress-queue %s name=%s id=%d", where, c.name, c.id)
+					}
+					nKnown++
 					continue
 				}
 				fail("sys/no-reply/"+kind, fmt.Sprintf("%s name=%s id=%d other=%d eof=%v", where, c.name, c.id, c.other, c.eof))
@@ -991,6 +1005,9 @@ func (e *sysEnv) judge(gs []*group) verdict {
 		e.probe.mu.Unlock()
 	}
 	v.tags = append(v.tags, fmt.Sprintf("q=%d", total), fmt.Sprintf("noerror=%d", nOK), fmt.Sprintf("servfail=%d", nSF))
+	if nKnown > 0 {
+		v.tags = append(v.tags, fmt.Sprintf("known-queue-expiry=%d", nKnown))
+	}
 	return v
 }
 
@@ -1096,6 +1113,9 @@ func execSys(f []string) vlib.Res {
 			waitFor(3*time.Second, e.srv.Quiesced)
 			e.launch(again)
 			v2 := e.judge(again)
+			if v.known == "" {
+				v.known = v2.known
+			}
 			switch {
 			case v2.fail != "":
 				v.fail = v2.fail
@@ -1113,6 +1133,8 @@ func execSys(f []string) vlib.Res {
 		or := "ok"
 		if v.fail != "" {
 			or = v.fail
+		} else if v.known != "" {
+			or = v.known // lowest priority: only when nothing else failed in this op
 		}
 		return vlib.Res{Impl: "done", Oracle: or, Tags: "nt," + strings.Join(v.tags, ",") + fmt.Sprintf(",maxlat_ms=%d", e.maxLat.Milliseconds())}
 	case "shift":
